@@ -14,8 +14,8 @@ import impl
 import srcmod
 
 ID = "C10"
-THEOREMS = ["follow_fuel_irrelevant", "streamOp_untyped_identity", "streamOp_untyped_no_internal", "follow_noInt", "checkAst_noInt", "follow_untyped", "methodCall_untyped", "follow_name", "follow_const", "follow_lambda", "fillLoop_complete"]
-LEANCHECKER_MODULES = ["Fadl.Props.FuelMono", "Fadl.Props.C10Full", "Fadl.Props.C10NoInt", "Fadl.Props.C10"]  # re-checked by leanchecker in the thorough tier
+THEOREMS = ["streamOp_untyped_refusals_designed", "follow_refusals", "streamOp_untyped_refuses_with_valueError", "follow_noFuel", "need_le_followFuel", "follow_fuel_irrelevant", "streamOp_untyped_identity", "streamOp_untyped_no_internal", "follow_noInt", "checkAst_noInt", "follow_untyped", "methodCall_untyped", "follow_name", "follow_const", "follow_lambda", "fillLoop_complete"]
+LEANCHECKER_MODULES = ["Fadl.Props.C10Refusals", "Fadl.Props.C10Fuel", "Fadl.Props.FuelMono", "Fadl.Props.C10Full", "Fadl.Props.C10NoInt", "Fadl.Props.C10"]  # re-checked by leanchecker in the thorough tier
 RULE = (
     "single-parameter lambdas over names (pool includes value, id, attr, ctx, lineno, elts, args, func, keys, body, "
     "slice), attributes, calls with positional / keyword / starred arguments, subscripts (constant, variable, negative, "
@@ -46,9 +46,9 @@ EXPLANATION = (
     "Err.designed also admits the model's own fuel exhaustion and opaque constants (outside the modelled fragment). The "
     "hypotheses are evaluated on every generated case (driver ops untypedHyp, wfU) and where they hold a non-ValueError "
     "failure of the IMPLEMENTATION is reported. Stating this theorem exposed defect a2ed5f2 (attribute access on a "
-    "dictionary literal with a non-Constant key node raised AttributeError), repaired in the repo. What stays the oracle's "
-    "claim: WHICH ValueErrors are raised (the five designed refusals) - the theorem bounds the kind of failure, not its "
-    "message; and that the model's fuel (4*size+8) always suffices is checked by the correspondence, not proved."
+    "dictionary literal with a non-Constant key node raised AttributeError), repaired in the repo. WHICH ValueErrors: streamOp_untyped_refusals_designed (Props/C10Refusals.lean) - the message is one of untypedStreamRefusals "
+    "(unknown / non-literal dictionary key, tuple index out of range or not constant, incompatible conditional branches, non-transportable "
+    "constant, non-boolean Where filter); that the model's fuel (4*size+8) suffices on untyped expressions IS proved (Props/C10Fuel.lean: follow_noFuel, need_le_followFuel), giving streamOp_untyped_refuses_with_valueError: identity or ValueError, nothing else."
 )
 
 MODEL_UNTYPED = (
